@@ -93,6 +93,20 @@ root = logging.getLogger()
 root.handlers[:] = [StaleCounter()]
 root.setLevel(logging.WARNING)
 
+# optional trace of routing decisions (oracle mode only; never compared with the model):
+# every FakeTRX.handle_data_msg(self, src_trx, src_msg, msg) call is recorded as call:<dst>:<src>:<fn>
+import os
+TRACE = os.environ.get("WORLD_TRACE") == "1"
+CALLS = []
+CUR_APP = [None]
+if TRACE:
+    _orig_hdm = FakeTRX.handle_data_msg
+    def _traced_hdm(self, src_trx, src_msg, msg):
+        l = CUR_APP[0].trx_list.trx_list
+        CALLS.append("call:%d:%d:%d" % (l.index(self), l.index(src_trx), src_msg.fn))
+        return _orig_hdm(self, src_trx, src_msg, msg)
+    FakeTRX.handle_data_msg = _traced_hdm
+
 # ---------------------------------------------------------------- world
 def build(extra):
     app = Application.__new__(Application)
@@ -121,6 +135,9 @@ def drain():
 
 def obs(exc):
     o = drain()
+    if CALLS:
+        o += CALLS
+        CALLS.clear()
     if StaleCounter.n:
         o.append("stale:%d" % StaleCounter.n)
         StaleCounter.n = 0
@@ -179,6 +196,8 @@ def run_line(line):
     except Exception as e:
         return "cfgerr:" + type(e).__name__
     trxs = app.trx_list.trx_list
+    CUR_APP[0] = app
+    CALLS.clear()
     res = []
     for op in opstr.split(";"):
         t = op.split()
